@@ -12,7 +12,13 @@ package lmd
 // event subtracts d+0.1 seconds, and timestamps written during an event are
 // snapped to the start of the event, so that the run is independent of the
 // speed of the machine. After every event `GET sites` (status, last_error,
-// idling, addr) and GetDataStore/`failed` are observed.
+// idling, addr) and GetDataStore/`failed` are observed, as well as isOnline, the
+// hostsbygroup table and the identity of the cached objects (which core instance
+// the status table is from, which object set the hosts table is).
+//
+// Event `restart`: the core behind the backend restarts while the backend keeps
+// its mode: all addresses serve a status row with another program_start and/or
+// nagios_pid, with the same objects or with another object set (one more host).
 
 import (
 	"context"
@@ -26,11 +32,14 @@ import (
 )
 
 type c13Event struct {
-	Kind   string `json:"kind"` // init setmode tick pass query
+	Kind   string `json:"kind"` // init setmode tick pass query restart
 	Addr   int    `json:"addr,omitempty"`
 	Mode   string `json:"mode,omitempty"`
 	Minute bool   `json:"minute,omitempty"`
 	D      int    `json:"d,omitempty"` // seconds
+	// restart: the object set changes as well / what changes in the status row (ps, pid, both)
+	Changed bool   `json:"changed,omitempty"`
+	How     string `json:"how,omitempty"`
 }
 
 type c13Input struct {
@@ -50,6 +59,48 @@ type c13Obs struct {
 	idling bool
 	failed bool
 	addr   int
+	// isOnline, hostsbygroup refused, core instance of the cached status table, object set of the cached hosts (0 = no data, 99 = unknown)
+	online  bool
+	bygroup bool
+	core    int
+	dset    int
+}
+
+// c13Core is one instance of the core behind the backend.
+type c13Core struct {
+	programStart int64
+	pid          int64
+	hosts        int // number of hosts of its object set
+	dset         int // identity of its object set (the first instance that served it)
+}
+
+func c13Dataset(core *c13Core) map[string]*vTable {
+	ds := vDefaultDataset(newVRand(4242), core.hosts, 3)
+	st := ds["status"]
+	st.Rows[0][st.colIndex("program_start")] = float64(core.programStart)
+	st.Rows[0][st.colIndex("nagios_pid")] = float64(core.pid)
+
+	return ds
+}
+
+// c13HostsDset maps the host names a query returned to the object set they are: vhost1..vhostN of the instance that introduced N hosts.
+func c13HostsDset(names []string, cores []c13Core) int {
+	seen := map[string]bool{}
+	for _, n := range names {
+		seen[n] = true
+	}
+	for i := 1; i <= len(names); i++ {
+		if !seen[fmt.Sprintf("vhost%d", i)] {
+			return 99
+		}
+	}
+	for i := range cores {
+		if cores[i].hosts == len(names) && len(seen) == len(names) {
+			return cores[i].dset
+		}
+	}
+
+	return 99
 }
 
 func init() {
@@ -148,6 +199,8 @@ func c13RunCase(idx int, in *c13Input) (obs []c13Obs, notes []string) {
 	lmd.Config.ConnectTimeout = 5
 	lmd.Config.NetTimeout = 10
 
+	// instance 1 of the core; cores[k-1] is instance k
+	cores := []c13Core{{programStart: 1700000000 - 1000, pid: 4321, hosts: 2, dset: 1}}
 	nAddr := in.NSrc + in.NFb
 	backends := make([]*vBackend, nAddr)
 	addrs := make([]string, nAddr)
@@ -157,7 +210,7 @@ func c13RunCase(idx int, in *c13Input) (obs []c13Obs, notes []string) {
 			addrs[i] = vDeadSocket(fmt.Sprintf("c13-%d-%d", idx, i))
 		} else {
 			backends[i] = newVBackend(fmt.Sprintf("c13-%d-%d", idx, i))
-			backends[i].SetDataset(vDefaultDataset(newVRand(4242), 2, 3))
+			backends[i].SetDataset(c13Dataset(&cores[0]))
 			backends[i].SetMode(c13Mode(in.Modes[i]))
 			addrs[i] = backends[i].Addr()
 		}
@@ -178,6 +231,7 @@ func c13RunCase(idx int, in *c13Input) (obs []c13Obs, notes []string) {
 		ev := &in.Events[ei]
 		before := clock.begin()
 		queryFailed, isQuery := false, false
+		queryHosts := []string{}
 		switch ev.Kind {
 		case "init":
 			_ = peer.InitAllTables(ctx)
@@ -197,6 +251,28 @@ func c13RunCase(idx int, in *c13Input) (obs []c13Obs, notes []string) {
 			peer.lastTimeperiodUpdateMinute.Store(minute)
 			_, err := peer.periodicUpdate(ctx)
 			_ = peer.initTablesIfRestartRequiredError(ctx, err)
+		case "restart":
+			next := cores[len(cores)-1]
+			switch ev.How {
+			case "ps":
+				next.programStart += 10
+			case "pid":
+				next.pid++
+			default:
+				next.programStart += 10
+				next.pid++
+			}
+			if ev.Changed {
+				next.hosts++
+				next.dset = len(cores) + 1
+			}
+			cores = append(cores, next)
+			for _, b := range backends {
+				if b != nil {
+					b.SetDataset(c13Dataset(&next))
+				}
+			}
+			before = nil // nothing was written by lmd
 		case "pass":
 			clock.shift(-(float64(ev.D) + c13PassFraction))
 			before = nil // nothing was written by lmd
@@ -209,11 +285,17 @@ func c13RunCase(idx int, in *c13Input) (obs []c13Obs, notes []string) {
 			} else {
 				var res struct {
 					Failed map[string]string `json:"failed"`
+					Data   [][]interface{}   `json:"data"`
 				}
 				if jerr := json.Unmarshal(out, &res); jerr != nil {
 					notes = append(notes, "query json: "+jerr.Error())
 				}
 				_, queryFailed = res.Failed["p"]
+				for _, row := range res.Data {
+					if len(row) == 1 {
+						queryHosts = append(queryHosts, fmt.Sprintf("%v", row[0]))
+					}
+				}
 			}
 		default:
 			panic("c13: unknown event " + ev.Kind)
@@ -241,6 +323,34 @@ func c13RunCase(idx int, in *c13Input) (obs []c13Obs, notes []string) {
 		if isQuery && queryFailed != o.failed {
 			notes = append(notes, "query failed flag differs from GetDataStore")
 			o.failed = queryFailed
+		}
+		o.online = peer.isOnline()
+		_, gerr := peer.GetDataStore(TableHostsbygroup)
+		o.bygroup = gerr != nil
+		if status, serr := peer.GetDataStore(TableStatus); serr == nil {
+			o.core = 99
+			if len(status.data) == 1 {
+				ps, pid := status.data[0].GetInt64ByName("program_start"), status.data[0].GetInt64ByName("nagios_pid")
+				for i := range cores {
+					if cores[i].programStart == ps && cores[i].pid == pid {
+						o.core = i + 1
+					}
+				}
+			}
+		}
+		if hosts, herr := peer.GetDataStore(TableHosts); herr == nil {
+			names := []string{}
+			nameCol := hosts.table.GetColumn("name")
+			for _, row := range hosts.data {
+				names = append(names, row.GetString(nameCol))
+			}
+			o.dset = c13HostsDset(names, cores)
+			if isQuery && !queryFailed {
+				if qd := c13HostsDset(queryHosts, cores); qd != o.dset {
+					notes = append(notes, "query answered from another object set than GetDataStore holds")
+					o.dset = qd
+				}
+			}
 		}
 		obs = append(obs, o)
 	}
@@ -277,6 +387,8 @@ func c13Coq(idx int, in *c13Input, obs []c13Obs, fixed bool) string {
 			events = append(events, "ETick "+coqBool(ev.Minute))
 		case "pass":
 			events = append(events, fmt.Sprintf("EPass %d", ev.D*1000+int(c13PassFraction*1000)))
+		case "restart":
+			events = append(events, "ERestart "+coqBool(ev.Changed))
 		default:
 			events = append(events, "EQuery")
 		}
@@ -287,7 +399,8 @@ func c13Coq(idx int, in *c13Input, obs []c13Obs, fixed bool) string {
 		if addr < 0 {
 			addr = 99
 		}
-		os = append(os, fmt.Sprintf("mkObs %s %s %s %s %d%%nat", o.status, coqBool(o.err), coqBool(o.idling), coqBool(o.failed), addr))
+		os = append(os, fmt.Sprintf("mkObs %s %s %s %s %d%%nat %s %s %d%%nat %d%%nat", o.status, coqBool(o.err), coqBool(o.idling), coqBool(o.failed), addr,
+			coqBool(o.online), coqBool(o.bygroup), o.core, o.dset))
 	}
 
 	return fmt.Sprintf("Definition c%d : case := mkCase (mkCfg %d %d %d %d %d%%nat %d%%nat %s) %s %s %s.\n", idx,
@@ -329,7 +442,15 @@ func c13Gen(r *vRand) *c13Input {
 	n := 6 + r.intn(16)
 	for range n {
 		switch k := r.intn(100); {
-		case k < 20 && len(live) > 0:
+		case k < 9:
+			// the core behind the backend restarts (whatever the backend answers at the moment) ...
+			in.Events = append(in.Events, c13Event{Kind: "restart", Changed: r.chance(1, 2), How: vPick(r, []string{"ps", "pid", "both"})})
+			if r.chance(1, 2) {
+				// ... and the next regular update notices it
+				pass(in.Update)
+				in.Events = append(in.Events, c13Event{Kind: "tick", Minute: r.chance(1, 8)})
+			}
+		case k < 25 && len(live) > 0:
 			in.Events = append(in.Events, c13Event{Kind: "setmode", Addr: vPick(r, live), Mode: vPick(r, []string{"ok", "ok", "ok", "refuse", "refuse", "garbage"})})
 		case k < 45:
 			// one regular update cycle
@@ -362,7 +483,8 @@ func c13ProbeFixed() bool {
 
 func c13Main(args []string) int {
 	flags := verifParseStreamFlags("c13avail", args)
-	meta := newVMeta("avail", "generated event sequences (6..26 events: set the mode ok/refuse/garbage of one address, one periodicUpdate with/without a "+
+	meta := newVMeta("avail", "generated event sequences (6..26 events: set the mode ok/refuse/garbage of one address, the core behind the backend restarts "+
+		"(program_start / nagios_pid / both change in the status row of all addresses, same objects or one more host), one periodicUpdate with/without a "+
 		"wall clock minute change, d seconds pass (<= 10 per sequence, d from a list that contains every configured interval and interval-1), client data query) "+
 		"on one peer with 1..3 source and 0..2 fallback addresses (scripted backends or dead sockets); StaleBackendTimeout in {10,30}, IdleTimeout in {20,120}, "+
 		"UpdateInterval in {3,7}, IdleInterval in {40,1800}; BackendKeepAlive off. non-trivial: at least one failure and one recovery observed; distinct by input")
@@ -413,7 +535,15 @@ func c13Main(args []string) int {
 		sb.WriteString(c13Coq(i, in, results[i], fixed))
 		names = append(names, fmt.Sprintf("c%d", i))
 		sawFail, sawRecover, wasBad := false, false, false
-		for _, o := range results[i] {
+		prev := c13Obs{}
+		for oi, o := range results[i] {
+			if oi > 0 && prev.core != 0 && o.core != 0 && o.core != prev.core {
+				meta.count("resync after a core restart: entered from " + prev.status + ", ended " + o.status)
+			}
+			if o.bygroup {
+				meta.count("bygroup=refused")
+			}
+			prev = o
 			meta.count("status=" + o.status)
 			if o.idling {
 				meta.count("idling=yes")
